@@ -5,6 +5,7 @@ import (
 	"fmt"
 	"os"
 	"path"
+	"sort"
 	"strings"
 	"sync"
 
@@ -70,9 +71,19 @@ func SaveConfig() error {
 		return nil
 	}
 
+	// Lock the options in a fixed order: concurrent calls of SaveConfig would
+	// otherwise deadlock each other, as every call holds all option locks it
+	// has acquired so far while waiting for the next one.
+	keys := make([]string, 0, len(options))
+	for key := range options {
+		keys = append(keys, key)
+	}
+	sort.Strings(keys)
+
 	// extract values
 	activeValues := make(map[string]interface{})
-	for key, option := range options {
+	for _, key := range keys {
+		option := options[key]
 		// we cannot immedately unlock the option afger
 		// getData() because someone could lock and change it
 		// while we are marshaling the value (i.e. for string slices).
